@@ -510,6 +510,9 @@ def lint_row(row: str, kind: str):
     for i, t in enumerate(toks):
         if t.cls == dsl.T_TILDE and i != len(toks) - 1:
             probs.append(("tilde-not-last", "`~` before the end of the row"))
+    err = dsl.row_regex_error(row)
+    if err and not any(k == "bad-regex" for k, _ in probs):
+        probs.append(("bad-regex", f"the row's regex does not compile: {err}"))
     return probs
 
 
